@@ -5,8 +5,9 @@
 //! transactions must leave the database bit-identical; the database checkers run at the end.
 use radix_common::prelude::*;
 use radix_engine::blueprints::consensus_manager::*;
-use radix_engine::blueprints::resource::FungibleVaultField;
-use radix_engine::system::system_substates::FieldSubstate;
+use radix_engine::blueprints::resource::{FungibleVaultBalanceFieldSubstate, FungibleVaultField};
+use radix_engine::blueprints::transaction_tracker::{TransactionStatus, TransactionStatusV1};
+use radix_engine::system::system_substates::{FieldSubstate, KeyValueEntrySubstate};
 use radix_engine::transaction::*;
 use radix_engine_interface::prelude::*;
 use radix_substate_store_interface::interface::*;
@@ -132,69 +133,199 @@ fn rewards_vault(sim: &Sim) -> NodeId {
     s.into_payload().into_unique_version().rewards_vault.0 .0
 }
 
-/// Classifies a failed commit. Returns the list of violations.
-fn classify(report: &mut Report, c: &CommitResult, rewards: &NodeId) -> Vec<String> {
+#[derive(ScryptoSbor)]
+struct AmountEvent {
+    amount: Decimal,
+}
+
+type Db = radix_substate_store_impls::memory_db::InMemorySubstateDatabase;
+
+fn vault_amount(db: &Db, node: &NodeId) -> Option<Decimal> {
+    let s: Option<FungibleVaultBalanceFieldSubstate> = db.get_substate(node, MAIN_BASE_PARTITION, FungibleVaultField::Balance);
+    s.map(|x| x.into_payload().into_unique_version().amount())
+}
+fn proposer_rewards_sum(db: &Db) -> (Decimal, NodeId) {
+    let s: FieldSubstate<ConsensusManagerValidatorRewardsFieldPayload> =
+        db.get_substate(CONSENSUS_MANAGER, MAIN_BASE_PARTITION, ConsensusManagerField::ValidatorRewards).unwrap();
+    let r = s.into_payload().into_unique_version();
+    let mut sum = Decimal::ZERO;
+    for (_, v) in r.proposer_rewards.iter() {
+        sum = sum.checked_add(*v).unwrap();
+    }
+    (sum, r.rewards_vault.0 .0)
+}
+
+/// Classifies a failed commit against the fee-only set, amounts included. Returns the violations.
+fn classify(report: &mut Report, c: &CommitResult, rewards: &NodeId, before: &Db, after: &Db) -> Vec<String> {
     let mut bad = Vec::new();
     let paying: Vec<NodeId> = c.fee_source.paying_vaults.keys().cloned().collect();
     let royalty: Vec<NodeId> = c.fee_destination.to_royalty_recipients.keys().map(|r| r.vault_id()).collect();
+    let fd = &c.fee_destination;
+    let to_rewards = fd.to_proposer.checked_add(fd.to_validator_set).unwrap();
+    let mut royalty_total = Decimal::ZERO;
+    for (_, v) in fd.to_royalty_recipients.iter() {
+        royalty_total = royalty_total.checked_add(*v).unwrap();
+    }
+    let mut paid_total = Decimal::ZERO;
+    for (_, v) in c.fee_source.paying_vaults.iter() {
+        paid_total = paid_total.checked_add(*v).unwrap();
+    }
+    if paid_total != to_rewards.checked_add(fd.to_burn).unwrap().checked_add(royalty_total).unwrap() {
+        bad.push(format!("fees paid {} != distributed {} + {} + {}", paid_total, to_rewards, fd.to_burn, royalty_total));
+    }
+    if !royalty_total.is_zero() {
+        bad.push(format!("failed transaction paid royalties {}", royalty_total));
+    }
+    let mut tracker_entries = 0usize;
     for (node, nu) in &c.state_updates.by_node {
         let NodeStateUpdates::Delta { by_partition } = nu;
         for (pnum, pu) in by_partition {
-            let keys: Vec<SubstateKey> = match pu {
-                PartitionStateUpdates::Delta { by_substate } => by_substate.keys().cloned().collect(),
-                PartitionStateUpdates::Batch(BatchPartitionStateUpdate::Reset { new_substate_values }) => new_substate_values.keys().cloned().collect(),
-            };
-            let is_reset = matches!(pu, PartitionStateUpdates::Batch(_));
             if node == TRANSACTION_TRACKER.as_node_id() {
-                report.count_n("upd_transaction_tracker", keys.len().max(1) as u64);
+                match pu {
+                    PartitionStateUpdates::Batch(_) => report.count("upd_tracker_partition_reset"),
+                    PartitionStateUpdates::Delta { by_substate } => {
+                        for (k, u) in by_substate {
+                            if *pnum == MAIN_BASE_PARTITION && *k == SubstateKey::Field(0u8) {
+                                report.count("upd_tracker_state_field");
+                                continue;
+                            }
+                            match (k, u) {
+                                (SubstateKey::Map(_), DatabaseUpdate::Set(raw)) if *pnum != MAIN_BASE_PARTITION => {
+                                    let e: Result<KeyValueEntrySubstate<TransactionStatus>, _> = scrypto_decode(raw);
+                                    match e.map(|e| e.into_value()) {
+                                        Ok(Some(TransactionStatus::V1(TransactionStatusV1::CommittedFailure))) => {
+                                            tracker_entries += 1;
+                                            report.count("upd_tracker_intent_committed_failure");
+                                        }
+                                        other => bad.push(format!("tracker entry of a failed transaction is {:?}", other.map(|x| x.map(|_| "other status")))),
+                                    }
+                                }
+                                _ => bad.push(format!("unexpected transaction tracker update {}/{:?}", pnum.0, k)),
+                            }
+                        }
+                    }
+                }
                 continue;
             }
-            if is_reset {
-                bad.push(format!("partition reset on {:?}/{}", node, pnum.0));
-                continue;
-            }
+            let keys: Vec<SubstateKey> = match pu {
+                PartitionStateUpdates::Delta { by_substate } => {
+                    for (k, u) in by_substate {
+                        if matches!(u, DatabaseUpdate::Delete) {
+                            bad.push(format!("substate {:?}/{}/{:?} deleted by a failed transaction", node, pnum.0, k));
+                        }
+                    }
+                    by_substate.keys().cloned().collect()
+                }
+                PartitionStateUpdates::Batch(_) => {
+                    bad.push(format!("partition reset on {:?}/{}", node, pnum.0));
+                    continue;
+                }
+            };
             for k in keys {
                 let is_balance = *pnum == MAIN_BASE_PARTITION && k == SubstateKey::Field(FungibleVaultField::Balance as u8);
-                if is_balance && paying.contains(node) {
-                    report.count("upd_fee_vault_balance");
-                } else if is_balance && node == rewards {
-                    report.count("upd_validator_rewards_vault_balance");
-                } else if is_balance && royalty.contains(node) {
-                    report.count("upd_royalty_vault_balance");
+                if is_balance && (paying.contains(node) || node == rewards || royalty.contains(node)) {
+                    let (b, a) = (vault_amount(before, node), vault_amount(after, node));
+                    let (Some(b), Some(a)) = (b, a) else {
+                        bad.push(format!("fee-related vault {:?} missing before or after", node));
+                        continue;
+                    };
+                    let mut expected = b;
+                    if let Some(p) = c.fee_source.paying_vaults.get(node) {
+                        expected = expected.checked_sub(*p).unwrap();
+                        report.count(if p.is_zero() { "upd_fee_vault_balance_paid_zero" } else { "upd_fee_vault_balance" });
+                    }
+                    if node == rewards {
+                        expected = expected.checked_add(to_rewards).unwrap();
+                        report.count("upd_validator_rewards_vault_balance");
+                    }
+                    if a != expected {
+                        bad.push(format!("vault {:?}: balance {} -> {}, the receipt accounts for {}", node, b, a, expected));
+                    }
                 } else if node == CONSENSUS_MANAGER.as_node_id()
                     && *pnum == MAIN_BASE_PARTITION
                     && k == SubstateKey::Field(ConsensusManagerField::ValidatorRewards as u8)
                 {
                     report.count("upd_consensus_manager_validator_rewards");
+                    let (sb, vb) = proposer_rewards_sum(before);
+                    let (sa, va) = proposer_rewards_sum(after);
+                    let d = sa.checked_sub(sb).unwrap();
+                    if vb != va || !(d == fd.to_proposer || d.is_zero()) {
+                        bad.push(format!("validator rewards bookkeeping changed by {} (to_proposer {}), vault {:?}->{:?}", d, fd.to_proposer, vb, va));
+                    }
                 } else {
                     bad.push(format!("substate {:?}/{}/{:?} changed by a failed transaction", node, pnum.0, k));
                 }
             }
         }
     }
+    if tracker_entries > c.performed_nullifications.len() {
+        bad.push(format!("{} tracker entries for {} nullifications", tracker_entries, c.performed_nullifications.len()));
+    }
+    for (v, (_res, _change)) in c.state_update_summary.vault_balance_changes.iter() {
+        if !(paying.contains(v) || v == rewards || royalty.contains(v)) {
+            bad.push(format!("balance of vault {:?} changed by a failed transaction", v));
+        }
+    }
     let s = &c.state_update_summary;
     if !(s.new_packages.is_empty() && s.new_components.is_empty() && s.new_resources.is_empty() && s.new_vaults.is_empty()) {
         bad.push("failed transaction created entities".to_string());
     }
-    for (ty, _) in &c.application_events {
+    let mut pay_events = Decimal::ZERO;
+    for (ty, data) in &c.application_events {
         let name = ty.1.as_str();
         let emitter_node = match &ty.0 {
             Emitter::Method(n, _) => Some(*n),
             Emitter::Function(_) => None,
         };
+        let amount = scrypto_decode::<AmountEvent>(data).ok().map(|e| e.amount);
         let ok = match name {
-            "LockFeeEvent" | "PayFeeEvent" => emitter_node.map(|n| paying.contains(&n)).unwrap_or(false) || name == "LockFeeEvent",
-            "DepositEvent" => emitter_node.map(|n| n == *rewards || royalty.contains(&n)).unwrap_or(false),
-            "BurnFungibleResourceEvent" => emitter_node == Some(XRD.into_node_id()),
+            "LockFeeEvent" => emitter_node.map(|n| paying.contains(&n)).unwrap_or(false),
+            "PayFeeEvent" => {
+                let ok = emitter_node.map(|n| c.fee_source.paying_vaults.get(&n) == amount.as_ref()).unwrap_or(false);
+                if let Some(a) = amount {
+                    pay_events = pay_events.checked_add(a).unwrap();
+                }
+                ok
+            }
+            "DepositEvent" => emitter_node.map(|n| n == *rewards).unwrap_or(false) && amount == Some(to_rewards),
+            "BurnFungibleResourceEvent" => emitter_node == Some(XRD.into_node_id()) && amount == Some(fd.to_burn),
             _ => false,
         };
         if ok {
             report.count(&format!("event_{}", name));
         } else {
-            bad.push(format!("event {} from {:?} emitted by a failed transaction", name, ty.0));
+            bad.push(format!("event {} ({:?}) from {:?} emitted by a failed transaction is not a fee event of this receipt", name, amount, ty.0));
         }
     }
+    if pay_events != paid_total {
+        bad.push(format!("PayFeeEvents total {} but paying vaults total {}", pay_events, paid_total));
+    }
     bad
+}
+
+/// Deterministic manifests (identical for every seed) that put the failure next to every fee mechanism.
+fn boundary_manifests(accts: &[Acct]) -> Vec<(&'static str, TransactionManifestV1)> {
+    let a = accts[0].addr;
+    let b = accts[1].addr;
+    let fail = |m: ManifestBuilder| m.assert_worktop_contains(XRD, dec!(100000000)).build();
+    vec![
+        ("no_fee_lock", ManifestBuilder::new().withdraw_from_account(a, XRD, dec!(1)).try_deposit_entire_worktop_or_abort(b, None).build()),
+        ("lock_then_fail", fail(ManifestBuilder::new().lock_fee(a, dec!(5000)))),
+        ("writes_before_lock_then_fail", fail(ManifestBuilder::new().withdraw_from_account(b, XRD, dec!(3)).lock_fee(a, dec!(5000)).try_deposit_entire_worktop_or_abort(b, None))),
+        // FORCE_WRITE admission (UNMODIFIED_BASE): locking a fee on a vault already modified in this transaction is refused
+        ("lock_fee_on_modified_vault_refused", fail(ManifestBuilder::new().withdraw_from_account(a, XRD, dec!(3)).lock_fee(a, dec!(5000)).try_deposit_entire_worktop_or_abort(b, None))),
+        ("payer_gets_new_vault_then_fail", fail(ManifestBuilder::new().lock_fee(a, dec!(5000))
+            .create_fungible_resource(OwnerRole::None, true, 18, FungibleResourceRoles::default(), metadata!(), Some(dec!(77)))
+            .try_deposit_entire_worktop_or_abort(a, None))),
+        ("payer_xrd_vault_also_withdrawn_then_fail", fail(ManifestBuilder::new().lock_fee(a, dec!(5000)).withdraw_from_account(a, XRD, dec!(9)).try_deposit_entire_worktop_or_abort(b, None))),
+        ("two_payers_then_fail", fail(ManifestBuilder::new().lock_fee(a, dec!(1)).lock_fee(b, dec!(5000)).withdraw_from_account(b, XRD, dec!(2)).try_deposit_entire_worktop_or_abort(a, None))),
+        ("same_payer_twice_then_fail", fail(ManifestBuilder::new().lock_fee(a, dec!(2)).lock_fee(a, dec!(5000)))),
+        ("contingent_then_fail", fail(ManifestBuilder::new().lock_fee(a, dec!(5000)).lock_contingent_fee(b, dec!(10)))),
+        ("faucet_pays_then_fail", fail(ManifestBuilder::new().lock_fee_from_faucet().get_free_xrd_from_faucet().try_deposit_entire_worktop_or_abort(a, None))),
+        ("lock_too_small", ManifestBuilder::new().lock_fee(a, dec!("0.01")).withdraw_from_account(a, XRD, dec!(1)).try_deposit_entire_worktop_or_abort(b, None).build()),
+        ("new_account_and_transfer_success_shape", ManifestBuilder::new().lock_fee(a, dec!(5000)).new_account().withdraw_from_account(a, XRD, dec!(4)).try_deposit_entire_worktop_or_abort(b, None).build()),
+        ("dangling_bucket", ManifestBuilder::new().lock_fee(a, dec!(5000)).withdraw_from_account(a, XRD, dec!(4)).build()),
+    ]
 }
 
 fn main() {
@@ -216,6 +347,11 @@ fn main() {
     let proofs: Vec<NonFungibleGlobalId> = accts.iter().map(|a| NonFungibleGlobalId::from_public_key(&a.pk)).collect();
     let root = Rng::new(args.seed);
     let points = if args.tier == "thorough" { 40 } else { 12 };
+    let mut work: Vec<(Vec<String>, TransactionManifestV1, Vec<u64>, bool)> = Vec::new();
+    // deterministic family first: every manifest at its own outcome and at fixed injection points
+    for (name, m) in boundary_manifests(&accts) {
+        work.push((vec![format!("boundary:{}", name)], m, vec![0, 1, 2, 3, 10, 100, 400, 1000, 1500, 2000, 3000, 5000, 8000, 12000, 20000, 0], true));
+    }
     for i in 0..args.cases {
         let mut rng = root.fork(i as u64);
         let (manifest, desc) = gen_manifest(&mut rng, &accts);
@@ -224,6 +360,9 @@ fn main() {
         for j in 0..points {
             ks.push(if j % 4 == 0 { rng.range(1, 300) } else if j % 4 == 1 { rng.range(300, 3000) } else if j % 4 == 2 { rng.range(3000, 12000) } else { rng.range(12000, 40000) });
         }
+        work.push((desc, manifest, ks, false));
+    }
+    for (i, (desc, manifest, ks, is_boundary)) in work.into_iter().enumerate() {
         for k in ks {
             let before = sim.substate_db().clone();
             let m = manifest.clone();
@@ -248,16 +387,32 @@ fn main() {
                     break;
                 }
             };
+            let pre = if is_boundary { "bf_" } else { "" };
+            if is_boundary && k == 0 {
+                let o = match &receipt.result {
+                    TransactionResult::Commit(c) => if c.outcome.is_success() { "success" } else { "failure" },
+                    TransactionResult::Reject(_) => "reject",
+                    TransactionResult::Abort(_) => "abort",
+                };
+                report.count(&format!("bf_own_outcome_{}_{}", desc[0], o));
+                if let TransactionResult::Reject(r) = &receipt.result {
+                    let txt = format!("{:?}", r.reason);
+                    report.notes.push(format!("{} rejected: {}", desc[0], &txt[..txt.len().min(160)]));
+                }
+            }
             match &receipt.result {
                 TransactionResult::Commit(c) => match &c.outcome {
                     TransactionOutcome::Success(_) => {
                         report.case(&canon, false);
-                        report.count(if k == 0 { "commit_success_uninjected" } else { "commit_success_injection_point_beyond_end" });
+                        report.count(&format!("{}{}", pre, if k == 0 { "commit_success_uninjected" } else { "commit_success_injection_point_beyond_end" }));
                     }
                     TransactionOutcome::Failure(_) => {
                         report.case(&canon, true);
-                        report.count(if k == 0 { "commit_failure_own" } else { "commit_failure_injected" });
-                        let bad = classify(&mut report, c, &rewards);
+                        report.count(&format!("{}{}", pre, if k == 0 { "commit_failure_own" } else { "commit_failure_injected" }));
+                        if is_boundary {
+                            report.count(&format!("bf_failure_{}", desc[0]));
+                        }
+                        let bad = classify(&mut report, c, &rewards, &before, sim.substate_db());
                         for b in bad {
                             report.oracle_failure(i, "", &b, json!({"manifest": desc, "k": k}));
                         }
@@ -265,7 +420,7 @@ fn main() {
                 },
                 TransactionResult::Reject(_) | TransactionResult::Abort(_) => {
                     report.case(&canon, false);
-                    report.count(if matches!(receipt.result, TransactionResult::Reject(_)) { "rejected" } else { "aborted" });
+                    report.count(&format!("{}{}", pre, if matches!(receipt.result, TransactionResult::Reject(_)) { "rejected" } else { "aborted" }));
                     if &before != sim.substate_db() {
                         report.oracle_failure(i, "", "rejected/aborted transaction changed the database", json!({"manifest": desc, "k": k}));
                     }
@@ -285,6 +440,18 @@ fn main() {
         Ok(()) => report.count("database_checkers_passed"),
         Err(msg) => report.oracle_failure(args.cases, "", &format!("database checker failed after the run: {}", msg), json!({})),
     }
+    for name in ["lock_then_fail", "writes_before_lock_then_fail", "payer_gets_new_vault_then_fail", "payer_xrd_vault_also_withdrawn_then_fail",
+                 "two_payers_then_fail", "same_payer_twice_then_fail", "contingent_then_fail", "faucet_pays_then_fail", "dangling_bucket"] {
+        report.floor(&format!("bf_failure_boundary:{}", name), 3);
+    }
+    report.floor("bf_rejected", 20);
+    report.floor("bf_own_outcome_boundary:lock_fee_on_modified_vault_refused_reject", 2);
+    report.floor("bf_own_outcome_boundary:no_fee_lock_reject", 2);
+    report.floor("bf_own_outcome_boundary:lock_too_small_reject", 2);
+    report.floor("bf_commit_failure_own", 9);
+    report.floor("bf_commit_failure_injected", 30);
+    report.floor("upd_fee_vault_balance_paid_zero", 3);
+    report.floor("upd_tracker_state_field", 30);
     report.floor("commit_failure_injected", args.cases as u64);
     report.floor("rejected", (args.cases as u64) / 2);
     report.floor("upd_fee_vault_balance", args.cases as u64);
